@@ -260,8 +260,5 @@ end CaddyModel.C07
 
 namespace CaddyModel.C07
 /-- counter-example lines replayed on the implementation on every run (see Witness.lean) -/
-def witnessLines : List String := [
-  -- Props.etag_honours_hide_full_fails: root /srv, hide *.etag, etag_file_extensions .etag, GET /a.txt
-  -- →  the content of the hidden /srv/a.txt.etag in the Etag header
-  "C07 serve 2f77 2f737276 2a2e65746167 . 101 2f612e747874 2f612e747874 2f737276:d;2f7372762f612e747874:f1;2f7372762f612e7478742e65746167:f2 000 . - s 2e65746167"]
+def witnessLines : List String := []
 end CaddyModel.C07
